@@ -1601,6 +1601,17 @@ where
         self.generation.load(Ordering::Relaxed)
     }
 
+    /// Continues `previous`'s generation counter in `self` and bumps it.
+    ///
+    /// Used when a rebuilt `Tds` replaces `previous` inside a live triangulation (initial-simplex
+    /// bootstrap, heuristic rebuild): a fresh counter could coincide with the generation a cache
+    /// (e.g. a convex hull) recorded earlier, so the replacement must keep counting where the old
+    /// structure stopped.
+    pub(crate) fn inherit_generation_from(&mut self, previous: &Self) {
+        self.generation = Arc::clone(&previous.generation);
+        self.bump_generation();
+    }
+
     /// Marks the triangulation topology as modified and invalidates generation-keyed caches.
     ///
     /// This is intended for crate-internal mutation paths that adjust cell slot ordering
